@@ -41,7 +41,7 @@ L1_NBR = ["RModel.BSet.nextValue_some", "RModel.BSet.nextValue_none", "RModel.BS
 L1_XFORM = ["RModel.BSet.mem_shift", "RModel.BSet.canon_shift", "RModel.BSet.mem_flipRange", "RModel.BSet.canon_xor"]
 
 PROPS = {
-    "C01": {"suites": [("alg", 1.0), ("kern", 0.3), ("popcnt", 1.0)], "theorems": L1_ALGEBRA + F_THRESH,
+    "C01": {"suites": [("alg", 1.0), ("kern", 0.3), ("kernspecial", 1.0), ("popcnt", 1.0)], "theorems": L1_ALGEBRA + F_THRESH,
             "modules": DEFAULT_MODULES + [FACTS],
             "owns": {"and", "or", "xor", "andnot", "iand", "ior", "ixor", "iandnot", "andcard", "orcard", "isect", "eq", "dig",
                      "kern", "popcnt"}},
